@@ -195,7 +195,7 @@ theorem nil_silent (sv : Nat) : ∀ o ∈ ([] : List Out), speaks sv o = false :
 
 /-- every event other than a step of the task of pipe `sv` is quiescent for `sv` -/
 theorem Quiescent_handle {c : State} (h : Inv c) (ev : Ev) (sv : Nat)
-    (hne : ∀ plan acc, ev ≠ .step sv plan acc) :
+    (hne : ∀ plan acc, ev ≠ .step sv plan acc) (hne' : ∀ plan acc, ev ≠ .stepFail sv plan acc) :
     Quiescent c (handle c ev).1 sv (handle c ev).2 := by
   cases ev with
   | recv r mcl w => exact Quiescent_net h _ sv
@@ -242,6 +242,51 @@ theorem Quiescent_handle {c : State} (h : Inv c) (ev : Ev) (sv : Nat)
           have : (x.srv == sv') = false := by rw [hx]; simpa using fun e => hsv e.symm
           simp [this]
       · simp only [putTask, hfr.1]
+  | stepFail sv' plan acc =>
+    have hsv : sv' ≠ sv := by intro e; subst e; exact hne' plan acc rfl
+    simp only [handle]
+    cases hf : findTask c sv' with
+    | none => exact Quiescent_map (Passive_id.at sv) c (by simp) (nil_silent sv)
+    | some t =>
+      have hts := findTask_srv hf
+      have hid := stepTask_id c.value t plan acc
+      have hfr := exec_frame sv' (stepTask c.value t plan acc).2 c
+      have hsim := execF_sim sv' (stepTask c.value t plan acc).2 (Sim.refl c)
+      have hout := (exec_outs sv' (stepTask c.value t plan acc).2 c).2.2.1 sv (fun e => hsv e.symm)
+      have hs' : (stepTask c.value t plan acc).1.srv = sv' := by rw [hid.1]; exact hts
+      refine Quiescent_map (f := fun x =>
+          (fun y : Task => if stops (execF c sv' (stepTask c.value t plan acc).2).2.2 y.srv then cancelTask y else y)
+          (if x.srv == (stepTask c.value t plan acc).1.srv then (stepTask c.value t plan acc).1 else x)) ?_ _ ?_ ?_
+      · have hput : ∀ x : Task, x.srv = sv →
+            (if x.srv == (stepTask c.value t plan acc).1.srv then (stepTask c.value t plan acc).1 else x) = x := by
+          intro x hx; rw [hs']
+          have : (x.srv == sv') = false := by rw [hx]; simpa using fun e => hsv e.symm
+          simp [this]
+        have hp := Passive_ite cancelTask_passive
+          (fun y : Task => stops (execF c sv' (stepTask c.value t plan acc).2).2.2 y.srv)
+        refine ⟨?_, ?_, ?_, ?_, ?_⟩
+        · intro x
+          show (if _ then cancelTask _ else _).srv = _
+          rw [show ∀ y : Task, (if stops (execF c sv' (stepTask c.value t plan acc).2).2.2 y.srv then cancelTask y else y).srv
+              = y.srv from fun y => hp.id y]
+          split
+          · rename_i he; exact (by simpa using he : x.srv = _).symm
+          · rfl
+        · intro x hx; simp only [hput x hx]; exact hp.base x
+        · intro x hx; simp only [hput x hx]; exact hp.cb x
+        · intro x hx hd; simp only [hput x hx]; exact hp.done x hd
+        · intro x hx; simp only [hput x hx]; exact hp.sent x
+      · show (List.map _ (putTask _ _).tasks ++ delivered _) = _
+        rw [delivered_nil_of_dsrvs (execF_dsrvs sv' _ c), List.append_nil]
+        simp only [putTask, hsim.1.tasks, hfr.1, List.map_map]
+        rfl
+      · intro o ho
+        cases hsp : speaks sv o with
+        | false => rfl
+        | true =>
+          have : o ∈ app (exec c sv' (stepTask c.value t plan acc).2).2 := by
+            rw [← hsim.2]; exact mem_app.mpr ⟨ho, isApp_of_speaks hsp⟩
+          rw [hout o (mem_app.mp this).1] at hsp; cases hsp
 
 
 /-- a step of the task of pipe `sv` itself -/
@@ -263,6 +308,45 @@ theorem handle_self_step {c : State} {sv : Nat} {t : Task} (hf : findTask c sv =
         · rfl) sv
   rw [this, hf]
   simp [hs', hts]
+
+/-- a step of the task of pipe `sv` itself during which the transport fails a send: what the
+application side sees and does is what it sees and does in the ordinary step; the task may come
+out of it cancelled -/
+theorem handle_self_stepFail {c : State} {sv : Nat} {t : Task} (hf : findTask c sv = some t)
+    (plan : Plan) (acc : Bool) :
+    app (handle c (.stepFail sv plan acc)).2 = app (exec c sv (stepTask c.value t plan acc).2).2 ∧
+    ∃ g : Task → Task, Passive g ∧
+      findTask (handle c (.stepFail sv plan acc)).1 sv = some (g (stepTask c.value t plan acc).1) := by
+  have hts := findTask_srv hf
+  have hid := stepTask_id c.value t plan acc
+  have hfr := exec_frame sv (stepTask c.value t plan acc).2 c
+  have hsim := execF_sim sv (stepTask c.value t plan acc).2 (Sim.refl c)
+  have hs' : (stepTask c.value t plan acc).1.srv = sv := by rw [hid.1]; exact hts
+  have hp := Passive_ite cancelTask_passive
+    (fun y : Task => stops (execF c sv (stepTask c.value t plan acc).2).2.2 y.srv)
+  simp only [handle, hf]
+  refine ⟨hsim.2, _, hp, ?_⟩
+  show List.find? _ (List.map _ (putTask _ _).tasks ++ delivered _) = _
+  rw [delivered_nil_of_dsrvs (execF_dsrvs sv _ c), List.append_nil]
+  simp only [putTask, hsim.1.tasks, hfr.1]
+  have h1 := findTask_map c (fun x => if x.srv == (stepTask c.value t plan acc).1.srv then
+      (stepTask c.value t plan acc).1 else x) (by
+        intro x; split
+        · rename_i he; exact (by simpa using he : x.srv = _).symm
+        · rfl) sv
+  have h2 := findTask_map
+    { c with tasks := c.tasks.map (fun x => if x.srv == (stepTask c.value t plan acc).1.srv then
+      (stepTask c.value t plan acc).1 else x) }
+    (fun y : Task => if stops (execF c sv (stepTask c.value t plan acc).2).2.2 y.srv then cancelTask y else y)
+    hp.id sv
+  rw [h2]
+  show Option.map _ (List.find? _ _) = _
+  rw [h1, hf]
+  simp [hs', hts]
+
+theorem handle_absent_stepFail {c : State} {sv : Nat} (hf : findTask c sv = none) (plan : Plan) (acc : Bool) :
+    handle c (.stepFail sv plan acc) = (c, []) := by
+  simp only [handle, hf]
 
 theorem handle_absent_step {c : State} {sv : Nat} (hf : findTask c sv = none) (plan : Plan) (acc : Bool) :
     handle c (.step sv plan acc) = (c, []) := by
